@@ -108,15 +108,21 @@ class FileName(Position):
 
 class DirName(Position):
     long_ok = False
+
+    def extra_payloads(self):
+        # a directory whose own name begins like a URL: selector (only 'URL:scheme://...' is one)
+        return ['URL:"><xss-7 onx-7=1>', "URL:'><xss-7 onx-7='1", 'URL:x"><xss-7>', "URL:mailto:a\"><xss-7>"]
     name = "directory-name-in-title"
     slash_ok = False
 
     def build(self, t, p):
         t.file("top/" + p + "/inside.txt", "x\n")
+        t.file(p + "/sub/inside.txt", "x\n")           # also directly under the root, with a sub-directory
 
     def requests(self, p):
-        return [(v, ("/top/" + p).encode("utf-8", "surrogateescape")) for v in ("http", "https", "wap")] + \
-               [(v, b"/top") for v in ("http", "wap")]
+        pe = p.encode("utf-8", "surrogateescape")
+        return [(v, b"/top/" + pe) for v in ("http", "https", "wap")] + [(v, b"/top") for v in ("http", "wap")] + \
+               [(v, b"/" + pe) for v in ("http", "https", "wap")] + [(v, b"/" + pe + b"/sub") for v in ("http", "wap")]
 
 
 class HtmlTitle(Position):
@@ -343,7 +349,10 @@ def gopherplus_blocks(chk: Check, sc: Scratch) -> None:
     """Sidecar content that looks like block headers / items must stay content."""
     hostile_lines = ["+INFO: 1fake\t/fake\thost.example\t70", "+ADMIN:", " Admin: evil <e@x>", "+VIEWS:", " text/evil: <9k>",
                      "+ABSTRACT:", "+", "+-1", "+3D:", "", " ", "\t+INFO: tab", "+INFO: 0x\t/y\tz\t1\t+", "plain line",
-                     "+FAKE: x", "+URL: http://evil/"]
+                     "+FAKE: x", "+URL: http://evil/",
+                     # lines longer than a terminal is wide, laid out so that a piece after a word boundary begins with '+'
+                     "w " * 37 + "+ADMIN:", "x" * 75 + " +INFO: 1fake\t/fake\thost.example\t70", ("word " * 15 + "+VIEWS: ") * 3,
+                     "y" * 78 + " +ABSTRACT:", "z" * 200 + " +3D: x"]
     rng = chk.subrng("gplus")
     for i in range(25):
         root = sc.sub("gp%d" % i)
